@@ -109,6 +109,9 @@ func (d *decoder) decodeCompactBytes(v value) {
 func (d *decoder) decodeArray(v value, elemType reflect.Type, decodeElem decodeFunc) {
 	if n := d.readInt32(); n < 0 {
 		v.setArray(array{})
+	} else if int(n) > d.remain {
+		// every element occupies at least one byte of the frame
+		d.setError(errLengthExceedsFrame)
 	} else {
 		a := makeArray(elemType, int(n))
 		for i := 0; i < int(n) && d.remain > 0; i++ {
@@ -121,6 +124,8 @@ func (d *decoder) decodeArray(v value, elemType reflect.Type, decodeElem decodeF
 func (d *decoder) decodeCompactArray(v value, elemType reflect.Type, decodeElem decodeFunc) {
 	if n := d.readUnsignedVarInt(); n < 1 {
 		v.setArray(array{})
+	} else if n-1 > uint64(d.remain) {
+		d.setError(errLengthExceedsFrame)
 	} else {
 		a := makeArray(elemType, int(n-1))
 		for i := 0; i < int(n-1) && d.remain > 0; i++ {
@@ -148,7 +153,13 @@ func (d *decoder) discard(n int) {
 	d.setError(err)
 }
 
+var errLengthExceedsFrame = fmt.Errorf("length field exceeds the remaining bytes of the frame: %w", io.ErrUnexpectedEOF)
+
 func (d *decoder) read(n int) []byte {
+	if n < 0 || n > d.remain {
+		d.setError(errLengthExceedsFrame)
+		return nil
+	}
 	b := make([]byte, n)
 	n, err := io.ReadFull(d, b)
 	b = b[:n]
@@ -239,6 +250,9 @@ func (d *decoder) readString() string {
 func (d *decoder) readVarString() string {
 	if n := d.readVarInt(); n < 0 {
 		return ""
+	} else if n > int64(d.remain) {
+		d.setError(errLengthExceedsFrame)
+		return ""
 	} else {
 		return bytesToString(d.read(int(n)))
 	}
@@ -246,6 +260,9 @@ func (d *decoder) readVarString() string {
 
 func (d *decoder) readCompactString() string {
 	if n := d.readUnsignedVarInt(); n < 1 {
+		return ""
+	} else if n-1 > uint64(d.remain) {
+		d.setError(errLengthExceedsFrame)
 		return ""
 	} else {
 		return bytesToString(d.read(int(n - 1)))
@@ -263,6 +280,9 @@ func (d *decoder) readBytes() []byte {
 func (d *decoder) readVarBytes() []byte {
 	if n := d.readVarInt(); n < 0 {
 		return nil
+	} else if n > int64(d.remain) {
+		d.setError(errLengthExceedsFrame)
+		return nil
 	} else {
 		return d.read(int(n))
 	}
@@ -271,9 +291,32 @@ func (d *decoder) readVarBytes() []byte {
 func (d *decoder) readCompactBytes() []byte {
 	if n := d.readUnsignedVarInt(); n < 1 {
 		return nil
+	} else if n-1 > uint64(d.remain) {
+		d.setError(errLengthExceedsFrame)
+		return nil
 	} else {
 		return d.read(int(n - 1))
 	}
+}
+
+// readTaggedFieldCount / readTaggedFieldSize bound the values by what is left of the frame (every tagged field
+// occupies at least two bytes, every byte of a field one).
+func (d *decoder) readTaggedFieldCount() int {
+	n := d.readUnsignedVarInt()
+	if n > uint64(d.remain) {
+		d.setError(errLengthExceedsFrame)
+		return 0
+	}
+	return int(n)
+}
+
+func (d *decoder) readTaggedFieldSize() int {
+	n := d.readUnsignedVarInt()
+	if n > uint64(d.remain) {
+		d.setError(errLengthExceedsFrame)
+		return 0
+	}
+	return int(n)
 }
 
 func (d *decoder) readVarInt() int64 {
@@ -427,11 +470,11 @@ func structDecodeFuncOf(typ reflect.Type, version int16, flexible bool) decodeFu
 		if flexible {
 			// See https://cwiki.apache.org/confluence/display/KAFKA/KIP-482%3A+The+Kafka+Protocol+should+Support+Optional+Tagged+Fields
 			// for details of tag buffers in "flexible" messages.
-			n := int(d.readUnsignedVarInt())
+			n := d.readTaggedFieldCount()
 
-			for i := 0; i < n; i++ {
+			for i := 0; i < n && d.err == nil; i++ {
 				tagID := int(d.readUnsignedVarInt())
-				size := int(d.readUnsignedVarInt())
+				size := d.readTaggedFieldSize()
 
 				f, ok := taggedFields[tagID]
 				if ok {
